@@ -136,6 +136,14 @@ Theorem C14_responder_failure_not_fatal : forall s c m dis e now,
 Proof. exact cache_always_caches. Qed.
 Print Assumptions C14_responder_failure_not_fatal.
 
+(** F — the handshake's view: a certificate in the cache is served for its name, and only
+    cached certificates are served (so "leaves the cache" below means "stops being served") *)
+Theorem C14_served_iff_cached : forall l,
+  (forall en, In en l -> served (c_name (en_cert en)) l <> None) /\
+  (forall name en, served name l = Some en -> In en l /\ c_name (en_cert en) = name).
+Proof. intros l. split; [exact (cached_is_served l)|exact (fun n en => served_is_cached n l en)]. Qed.
+Print Assumptions C14_served_iff_cached.
+
 (** F — and a maintenance pass removes a certificate only if it is managed and was reported
     Revoked by a response that passed all checks ([learned_revoked]); in particular never
     because the responder failed *)
@@ -321,3 +329,19 @@ Example C14_example_reuse_premises :
   valid_for xc1 1200 (xr Good 11 900 2000) = true /\ stored_parse xc1 (Blob 99 None) = None /\
   opt_trusted xc1 (Some xgood) = true.
 Proof. vm_compute. auto. Qed.
+
+(** the premise [learned_revoked] of [C14_revoked_replaced_or_evicted] (and the exception of
+    [C14_maintenance_keeps_certificates]) is met in the last step of [xhist], from the responder's
+    answer; and the premises of [C14_bad_answer_never_stapled] by a Revoked answer *)
+Example C14_example_learned_revoked :
+  let s := run (Sys [] []) (firstn 3 xhist) in
+  let st := step s (OMaintain false 1600 (fun _ => xenv xrev) (fun _ => ROk xc2 (xenv xgood2))) in
+  forallb (fun en => en_managed en && learned_revoked false 1600 (xenv xrev) s (snd st) en) (cache s) = true /\
+  NoDup (ids (cache s)) /\ cache s <> [] /\
+  reusable xc1 1600 None = false /\
+  (forall b r, e_ans (xenv xrev) = ABytes b -> b_parse b = Some r -> r_status r <> Good).
+Proof.
+  vm_compute. repeat split; try discriminate.
+  - constructor; [intros []|constructor].
+  - intros b r H P. inversion H; subst. inversion P; subst. discriminate.
+Qed.
